@@ -417,7 +417,7 @@ impl Property for C04 {
             .unwrap_or_default()
     }
     fn rule(&self) -> String {
-        "seeded worlds (2-10 targets, thorough up to 24; nesting, uses, 1-3 commands, sequences; selection all/changed/-t --deps) x seeded schedule strategy (plan order, reverse, dependencies-last, uniform, hold-monorail, straggler); every child exits 0. Invariants on controller event sequence numbers: dependency told to exit before dependent's spawn is requested; command barrier; documented command order; bounded progress. Non-trivial = the run has >= 2 groups with an R-dep edge across them and >= 1 scheduling decision that differs from plan order; distinct = hash of (targets+uses, group shape, strategy, trace length)".into()
+        "seeded worlds (2-10 targets, thorough up to 24; nesting, uses, 1-3 commands, sequences; selection all/changed/-t --deps) x seeded schedule strategy (plan order, reverse, dependencies-last, uniform, hold-monorail, straggler); every child exits 0. Invariants on controller event sequence numbers: dependency told to exit before dependent's spawn is requested; command barrier; documented command order; bounded progress. Rounds 11-12: one world in three that has sequences names a sequence like one of its member commands; one run in six under a wrong or jumping wall clock. Non-trivial = the run has >= 2 groups with an R-dep edge across them and >= 1 scheduling decision that differs from plan order; distinct = hash of (targets+uses, group shape, strategy, trace length)".into()
     }
     fn components(&self) -> Value {
         components()
@@ -992,7 +992,7 @@ impl Property for C05 {
         from_val(v).map(|s| shrink_run_scenario(&s).iter().map(to_val).collect()).unwrap_or_default()
     }
     fn rule(&self) -> String {
-        "seeded worlds (2-9 targets, nesting, uses, 25% undefined pairs, one third with prefix-sharing sibling names app/app2/app-web) x selection mode (no checkpoint / checkpoint+edits / -t with and without --deps); oracle: analyze --target-groups taken immediately before the run, R-dep closure for --deps, helper start multiset vs result document. Non-trivial = selected set is a strict non-empty subset of the configured targets or contains an undefined pair; distinct = hash of (world shape, group shape, mode, named set)".into()
+        "seeded worlds (2-9 targets, nesting, uses, 25% undefined pairs, one third with prefix-sharing sibling names app/app2/app-web) x selection mode (no checkpoint / checkpoint+edits / -t with and without --deps); oracle: analyze --target-groups taken immediately before the run, R-dep closure for --deps, helper start multiset vs result document. Round 12: one world in three that has sequences names a sequence like one of its member commands (`-s build` runs the members of the sequence `build`). Non-trivial = selected set is a strict non-empty subset of the configured targets or contains an undefined pair; distinct = hash of (world shape, group shape, mode, named set)".into()
     }
     fn components(&self) -> Value {
         components()
@@ -1351,7 +1351,7 @@ impl Property for C06 {
         out
     }
     fn rule(&self) -> String {
-        "seeded worlds x selection mode x faults: 0-3 children exiting 1..255 (biased into one command/group), 12% undefined pairs, 6% files without x bit, --fail-on-undefined on/off; one quarter fault-free; schedules as C04 plus monorail parked at its own bookkeeping points (task result, shutdown sends, group done, result/pointer writes) while children move, and in one third of the runs the schedule 'compressor threads have exited before the remaining shutdown messages are sent' forced at a seeded shutdown point. Oracle: status model + truthfulness against the helper trace + exit status + one JSON document. Non-trivial = a fault fired, or an internal point was held while another actor moved, or the forced shutdown schedule was used; distinct = hash of (world, groups, strategy, mode, failing codes, flags)".into()
+        "seeded worlds x selection mode x faults: 0-3 children exiting 1..255 (biased into one command/group), 12% undefined pairs, 6% files without x bit, --fail-on-undefined on/off; one quarter fault-free; schedules as C04 plus monorail parked at its own bookkeeping points (task result, shutdown sends, group done, result/pointer writes) while children move, and in one third of the runs the schedule 'compressor threads have exited before the remaining shutdown messages are sent' forced at a seeded shutdown point. Oracle: status model + truthfulness against the helper trace + exit status + one JSON document. Rounds 11-12: one scenario in twelve has a command file with the x bit that cannot be executed (aborting loudly with nothing started afterwards is tolerated; a document must count it as a failure); one in fourteen has a child that closes both output streams and exits - half of the time failing - 1.2-2.5 s later; one in six runs under a wrong or jumping wall clock. Non-trivial = a fault fired, or an internal point was held while another actor moved, or the forced shutdown schedule was used; distinct = hash of (world, groups, strategy, mode, failing codes, flags)".into()
     }
     fn components(&self) -> Value {
         components()
